@@ -6,6 +6,8 @@ examples live here.
 -/
 import MxlVerif.Lemmas.C16Int
 import MxlVerif.Lemmas.C05Raw
+import MxlVerif.Lemmas.C16Py
+import MxlVerif.Lemmas.C16Bridge
 import MxlVerif.Generated.C16Facts
 namespace Mxl.C16
 open Mxl.C05
@@ -363,6 +365,44 @@ theorem C16_raw_coefficients :
    fun pre k post => (unpackLinRaw_first_bad pre k .derived post).1 rfl,
    fun pre k q post hq => (unpackLinRaw_first_bad pre k (.float q) post).2 q rfl hq,
    linearBuildP_nil⟩
+
+/-- **initial labels are placed where requested** (for `build_model`'s result; `initial_labels` a
+    dict, i.e. each compound once): every requested position `(k, p)` starts at enrichment
+    `1/len(positions of k)` — so the requested positions of a compound share one unit of label —,
+    every slot no entry names keeps its start value: 0 for a position of a listed compound, and it is
+    no variable otherwise (a requested position outside the listed positions becomes a variable of
+    its own: the code does not look) -/
+theorem C16_initial_labels {baseRxns : List (Name × List (Name × Int))} {lv : List (Name × Nat)}
+    {maps : List (Name × List Nat)} {il : List (Name × List Nat)} {lmod : LinModel}
+    (hlin : linearBuild baseRxns lv maps il = .ok lmod) (hnd : (il.map (·.1)).Nodup) :
+    (∀ k ps p, (k, ps) ∈ il → p ∈ ps → lmod.vars.lookup (Slot.pos k p) = some (1 / (ps.length : Rat))) ∧
+    (∀ s, (∀ kp ∈ il, s ∉ kp.2.map (Slot.pos kp.1)) →
+      lmod.vars.lookup s = if s ∈ (isosOf lv).flatMap (·.2) then some 0 else none) := by
+  obtain ⟨_, _, _, _, hv⟩ := linearBuild_ok hlin
+  rw [hv]
+  exact ⟨fun k ps p hk hp => linInitVars_requested lv il hnd k ps hk p hp,
+    fun s h => linInitVars_unrequested lv il s h⟩
+
+/-- **evaluation at a zero pool** (`linRhsChecked`, what the driver evaluates): the coefficients
+    `∓1/pool` are computed for every per-position reaction, so the right-hand side exists exactly
+    when no pool of a compound with a per-position reaction is zero (Python: `ZeroDivisionError`
+    otherwise, no guard), and then it is `linRhs` — the theorems above are about that case -/
+theorem C16_zero_pool (rxs : List LinRxn) (E : Slot → Rat) (v C : Name → Rat) :
+    (linRhsChecked rxs E v C = none ↔ ∃ c ∈ poolsOf rxs, C c = 0) ∧
+    (∀ f, linRhsChecked rxs E v C = some f → f = linRhs rxs E v C ∧ ∀ c ∈ poolsOf rxs, C c ≠ 0) :=
+  ⟨linRhsChecked_none_iff rxs E v C, fun f h => linRhsChecked_some rxs E v C f h⟩
+
+/-- **what the driver runs is the model the theorems are about**: `label_maps` entries with integer
+    indices inside their reaction's padded positions (`nmaps` = the same entries counted from the
+    front, same order), no raw coefficients ⇒ the driver's entry point `linearBuildP` is
+    `linearBuild` — the model of `C16_model_marginal`, `C16_model_uniform_stationary`,
+    `C16_initial_labels` -/
+theorem C16_model_integer_maps (baseRxns : List (Name × List (Name × Int))) (lv : List (Name × Nat))
+    (maps : List (Name × List Int)) (nmaps : List (Name × List Nat)) (il : List (Name × List Nat))
+    (h : Fa2 (fun km nkm => nkm.1 = km.1 ∧
+      normMap (padLen (isosOf lv) baseRxns km.1) km.2 = .ok nkm.2) maps nmaps) :
+    linearBuildP baseRxns lv maps [] il = linearBuild baseRxns lv nmaps il := by
+  rw [linearBuildP_nil, linearBuildI_eq_nat baseRxns lv maps nmaps il h]
 
 /-- the facts regenerated from the current `linear_label_map.py` by `translate/c16.py` are the ones
     the model is written for: every mirrored function has its modelled statement shape (no decorator,
